@@ -756,8 +756,11 @@ impl Arena {
     }
     let header = self.header_mut();
 
-    let want = header.allocated + size;
-    if want <= self.cap {
+    let want = header
+      .allocated
+      .checked_add(size)
+      .filter(|want| *want <= self.cap);
+    if let Some(want) = want {
       let offset = header.allocated;
       header.allocated = want;
 
@@ -866,9 +869,12 @@ impl Arena {
     let allocated = header.allocated;
     let aligned_offset = align_offset::<T>(allocated);
     let size = mem::size_of::<T>() as u32;
-    let want = aligned_offset + size + extra;
+    let want = aligned_offset
+      .checked_add(size)
+      .and_then(|want| want.checked_add(extra))
+      .filter(|want| *want <= self.cap);
 
-    if want <= self.cap {
+    if let Some(want) = want {
       // break size + extra;
       let offset = header.allocated;
       header.allocated = want;
@@ -883,14 +889,22 @@ impl Arena {
       return Ok(Some(allocated));
     }
 
+    // the padded request must be representable, otherwise no segment can hold it
+    let Some(padded) = (Self::pad::<T>() as u32).checked_add(extra) else {
+      return Err(Error::InsufficientSpace {
+        requested: size.saturating_add(extra),
+        available: self.remaining() as u32,
+      });
+    };
+
     // allocate through slow path
     match self.freelist {
       Freelist::None => Err(Error::InsufficientSpace {
-        requested: size + extra,
+        requested: size.saturating_add(extra),
         available: self.remaining() as u32,
       }),
       Freelist::Optimistic => {
-        match self.alloc_slow_path_optimistic(Self::pad::<T>() as u32 + extra) {
+        match self.alloc_slow_path_optimistic(padded) {
           Ok(mut bytes) => {
             bytes.align_bytes_to::<T>();
             Ok(Some(bytes))
@@ -899,7 +913,7 @@ impl Arena {
         }
       }
       Freelist::Pessimistic => {
-        match self.alloc_slow_path_pessimistic(Self::pad::<T>() as u32 + extra) {
+        match self.alloc_slow_path_pessimistic(padded) {
           Ok(mut bytes) => {
             bytes.align_bytes_to::<T>();
             Ok(Some(bytes))
